@@ -1249,15 +1249,13 @@ class EventBus:
                     pass  # Expected when we cancel the task
 
             # Ensure monitor task is cancelled
-            try:
-                if not monitor_task.done():
-                    monitor_task.cancel()
-                await monitor_task
-            except asyncio.CancelledError:
-                pass  # Expected when we cancel the monitor
-            except Exception as e:
-                # logger.debug(f"❌ {self} Handler monitor task cleanup error for {get_handler_name(handler)}#{str(id(handler))[-4:]}({event}): {type(e).__name__}: {e}")
-                pass
+            if not monitor_task.done():
+                monitor_task.cancel()
+            # Wait for it with asyncio.wait(), which does not re-raise the monitor's own CancelledError:
+            # 'await monitor_task' inside 'except CancelledError: pass' also swallowed a cancellation of
+            # *this* task that arrived while it was suspended here (e.g. asyncio.run() cancelling the
+            # bus's run loop at exit), after which the run loop could never be cancelled again
+            await asyncio.wait({monitor_task})
 
     def _would_create_loop(self, event: 'BaseEvent[Any]', handler: EventHandler) -> bool:
         """Check if calling this handler would create a loop"""
